@@ -17,8 +17,9 @@ RULE = (
     "random legal H1-H4 skeleton of up to 5 headers with blocks, comments interleaved, 1-3 blank lines, items of "
     "all six kinds with every combination of priority / YYMMDD modify date / ZID (2- and 3-character) / "
     "YYYY-MM-DD create date, irregular gaps after the prefix, 1-7 lines per item: continuation lines, L1-L3 "
-    "bullets, trailing bullet properties; bodies over the grammar's word forms with prefix look-alikes (o, x, Pn, "
-    "dates, times, ZIDs) forced into later positions and, where the item has its own ZID/date, the first), "
+    "bullets, bullet properties on L1 or in L2/L3 drawers, headline properties, lines ending in blanks; bodies over the grammar's word forms with prefix look-alikes (o, x, Pn, "
+    "dates, times, ZIDs, six digits / YYYY-MM-DD words that are no calendar dates) forced into later positions "
+    "and, wherever they cannot be a field of the item, the first), "
     "renders them to text (gated by an independent error-free parse) and compares walk_zorg_page's notes with "
     "the reference compiler: count, order, kind, priority, body, line number, ZID, creation and modification "
     "date; has_errors must be false.  Non-trivial = page with >= 2 items and one of {multi-line item, look-alike "
